@@ -684,13 +684,21 @@ public:
 
 	~CMsgPackReadObjectScope()
 	{
-		ResetKey();
-		// Skip key/values that was not read
-		for (size_t c = mIndex; c < mSize; ++c)
+		try
 		{
-			mMsgPackReader->SkipValue();
-			mMsgPackReader->SkipValue();
-			++mIndex;
+			ResetKey();
+			// Skip key/values that was not read
+			for (size_t c = mIndex; c < mSize; ++c)
+			{
+				mMsgPackReader->SkipValue();
+				mMsgPackReader->SkipValue();
+				++mIndex;
+			}
+		}
+		catch (...)
+		{
+			// Destructor must not throw, the error (e.g. unexpected end of input) will be reported at the end of loading
+			GetContext().SetDeferredException(std::current_exception());
 		}
 	}
 
